@@ -173,21 +173,21 @@ def admission_scenarios(env):
 
 
 def default_timeouts_wiring(env):
-    """C11 wiring on real networks (loopback, real time, wide margins: defaults 150 ms vs a 900 ms handler)"""
+    """C11 wiring on real networks (loopback, real time, wide margins: defaults 150 ms vs a 1500 ms handler, accepted if cut off before 1200 ms)"""
     fails, cases = [], 0
     for order in ('no_layer', 'config_then_layer', 'layer_then_config'):
         for (sc, want) in [
-            (dict(order=order, client_outbound_ms=150, handler_ms=900), 'client-timeout'),
-            (dict(order=order, server_inbound_ms=150, handler_ms=900), 'server-408'),
+            (dict(order=order, client_outbound_ms=150, handler_ms=1500), 'client-timeout'),
+            (dict(order=order, server_inbound_ms=150, handler_ms=1500), 'server-408'),
             (dict(order=order, client_outbound_ms=150, server_inbound_ms=150, handler_ms=10), 'success'),
             (dict(order=order, handler_ms=300), 'success'),
         ]:
             got = _run('default_timeouts', sc, env)
             cases += 1
             if want == 'client-timeout':
-                ok = got.get('outcome') == 'error' and got.get('elapsed_ms', 10**9) < 700
+                ok = got.get('outcome') == 'error' and got.get('elapsed_ms', 10**9) < 1200
             elif want == 'server-408':
-                ok = got.get('outcome') == 'response' and got.get('status') == 408 and got.get('elapsed_ms', 10**9) < 700
+                ok = got.get('outcome') == 'response' and got.get('status') == 408 and got.get('elapsed_ms', 10**9) < 1200
             else:
                 ok = got.get('outcome') == 'response' and got.get('status') == 200
             if not ok:
